@@ -2,6 +2,7 @@ import Driver.Util
 import Driver.Vec
 import Driver.Queue
 import Driver.PubSub
+import Driver.RelPtr
 import Driver.ReqRes
 import Driver.WaitSet
 import Driver.Ffi
@@ -42,6 +43,7 @@ def components : List (String × Comp) := [
   ("vec", VecD.comp),
   ("queue", QueueD.comp),
   ("pubsub", PubSubD.comp),
+  ("relptr", RelPtrD.comp),
   ("reqres", ReqResD.comp),
   ("waitset", WaitSetD.comp),
   ("ffi", FfiD.comp),
